@@ -219,3 +219,36 @@ func ZVC32Decrypt(suite, vers uint16, typ byte, plain []byte, mode string, n int
 	}()
 	return res
 }
+
+// ---- a peer that holds the keys (C32: protected records of any type and content after a genuine handshake) -----------
+
+// ZVC32WriteRecord protects data as ONE record of content type typ with the connection's current write state and
+// writes it to the transport: any type, any content, the empty record included (Conn.WriteRecord writes nothing for
+// empty data and switches the cipher after a change_cipher_spec).
+func ZVC32WriteRecord(c *Conn, typ byte, data []byte) error {
+	c.out.Lock()
+	defer c.out.Unlock()
+	vers := c.vers
+	if vers == VersionTLS13 {
+		vers = VersionTLS12
+	}
+	hdr := []byte{typ, byte(vers >> 8), byte(vers), byte(len(data) >> 8), byte(len(data))}
+	rec, err := c.out.encrypt(hdr, data, c.config.rand())
+	if err != nil {
+		return err
+	}
+	_, err = c.write(rec)
+	return err
+}
+
+// ZVC32RollWriteKey moves the TLS 1.3 write traffic secret one generation on (what a sender does after its KeyUpdate).
+func ZVC32RollWriteKey(c *Conn) bool {
+	c.out.Lock()
+	defer c.out.Unlock()
+	cs := cipherSuiteTLS13ByID(c.cipherSuite)
+	if c.vers != VersionTLS13 || cs == nil || c.out.trafficSecret == nil {
+		return false
+	}
+	c.out.setTrafficSecret(cs, cs.nextTrafficSecret(c.out.trafficSecret))
+	return true
+}
